@@ -22,16 +22,16 @@ def newsOf (E : Env) (c : Cfg) (obj : Node) (ct : CT) : Pkg :=
   fixedNews E c ++ certNews E c ++
     [⟨sigName c, E.xsign c.hash c.detach obj⟩, ⟨sContentTypes, E.marshalCT (sortMap ct.byExt) (sortMap ct.byOvr)⟩]
 
-theorem sign_inv {E : Env} {c : Cfg} {pkg : Pkg} {s : Signed} (hs : sign E c pkg = .ok s) :
-    ∃ m, mangle E pkg {} = .ok m ∧
-      mkRefs m.ct (sortMap (addDigests m.digests (fixedNews E c))) = .ok s.refs ∧
+theorem sign_inv {fx : Bool} {E : Env} {c : Cfg} {pkg : Pkg} {s : Signed} (hs : sign fx E c pkg = .ok s) :
+    ∃ m, mangle fx E pkg {} = .ok m ∧
+      mkRefs fx m.ct (sortMap (addDigests m.digests (fixedNews E c))) = .ok s.refs ∧
       s.obj = objectNode E c.hash c.time s.refs ∧ s.kept = m.kept ∧ s.ctOut = newCtypes m.ct c.detach ∧
       s.parts = m.kept ++ newsOf E c s.obj s.ctOut := by
   unfold sign at hs
-  cases hm : mangle E pkg {} with
+  cases hm : mangle fx E pkg {} with
   | ok m =>
     simp only [hm] at hs
-    cases hr : mkRefs m.ct (sortMap (addDigests m.digests (fixedNews E c))) with
+    cases hr : mkRefs fx m.ct (sortMap (addDigests m.digests (fixedNews E c))) with
     | ok refs =>
       simp only [hr, Res.ok.injEq] at hs
       subst hs
@@ -184,5 +184,84 @@ theorem readCerts_chain (E : Env) (files : Files) : ∀ (xs : List (Bytes × Byt
     have ih' := ih (fun y hy => hall y (List.mem_cons_of_mem _ hy))
     simp only [readCerts, hr.2, ne_eq, not_true_eq_false, if_false, hr.1, h2, readZip, h1, h3, ih', chainKeys, List.flatMap_cons,
       Option.getD_some]
+
+/-! ### which names the Manifest lists, repaired signer vs. the one before -/
+
+/-- the Manifest lists the kept parts of the input and three of the parts the signer adds -/
+theorem refs_names_iff {fx : Bool} {E : Env} {c : Cfg} {pkg : Pkg} {s : Signed} (hs : sign fx E c pkg = .ok s) (n : Bytes) :
+    n ∈ s.refs.map (·.name) ↔
+      (∃ p ∈ pkg, p.name = n ∧ keepFile n = true) ∨ n = relPath [] ∨ n = relPath sOrigin ∨ n = sOrigin := by
+  obtain ⟨m, hm, hrefs, -, -, -, -⟩ := sign_inv hs
+  obtain ⟨-, hdig⟩ := mangle_spec fx E pkg {} m hm
+  have hpairs := mkRefs_spec _ _ _ _ hrefs
+  have e1 : n ∈ s.refs.map (·.name) ↔ ∃ st, (n, st) ∈ sortMap (addDigests m.digests (fixedNews E c)) := by
+    rw [← hpairs]
+    simp only [List.mem_map, Prod.mk.injEq]
+    constructor
+    · rintro ⟨r, hr, rfl⟩; exact ⟨r.stream, r, hr, rfl, rfl⟩
+    · rintro ⟨st, r, hr, h1, -⟩; exact ⟨r, hr, h1⟩
+  rw [e1]
+  simp only [mem_sortMap, addDigests, hdig, ← List.foldl_append, mem_digests, List.not_mem_nil, and_false, or_false]
+  constructor
+  · rintro ⟨st, h⟩
+    rw [findLast_append] at h
+    cases hq : findLast (fixedNews E c) n with
+    | some q =>
+      have := findLast_some hq
+      simp only [fixedNews, List.mem_cons, List.not_mem_nil, or_false] at this
+      rcases this with ⟨rfl | rfl | rfl, rfl⟩
+      · exact Or.inr (Or.inl rfl)
+      · exact Or.inr (Or.inr (Or.inl rfl))
+      · exact Or.inr (Or.inr (Or.inr rfl))
+    | none =>
+      rw [hq] at h
+      obtain ⟨h1, h2⟩ := findLast_some h
+      simp only [keptOf, List.mem_filter] at h1
+      exact Or.inl ⟨_, h1.1, h2, by simpa using h1.2⟩
+  · rintro (⟨p, hp, rfl, hk⟩ | h)
+    · rw [findLast_append]
+      cases hq : findLast (fixedNews E c) p.name with
+      | some q => exact ⟨q.data, by simp only; rw [← (findLast_some hq).2]⟩
+      | none =>
+        simp only
+        have hmem : p ∈ keptOf pkg := by simp [keptOf, hp, hk]
+        obtain ⟨q, hk2⟩ := findLast_of_mem hmem
+        exact ⟨q.data, by rw [hk2, ← (findLast_some hk2).2]⟩
+    · have hin : ∀ p ∈ fixedNews E c, ∃ st, findLast (keptOf pkg ++ fixedNews E c) p.name = some ⟨p.name, st⟩ := by
+        intro p hp
+        rw [findLast_append]
+        have hnd : ((fixedNews E c).map (·.name)).Nodup := by
+          simp only [fixedNews, List.map_cons, List.map_nil]
+          decide
+        rw [findLast_of_nodup hnd hp]
+        exact ⟨p.data, rfl⟩
+      rcases h with rfl | rfl | rfl
+      · exact hin _ (by unfold fixedNews; exact List.mem_cons_self)
+      · exact hin _ (by unfold fixedNews; exact List.mem_cons_of_mem _ List.mem_cons_self)
+      · exact hin _ (by unfold fixedNews; exact List.mem_cons_of_mem _ (List.mem_cons_of_mem _ List.mem_cons_self))
+
+/-- what the repaired signer returns: names the verifier finds again, no two kept members of one name -/
+theorem sign_true_ok {E : Env} {c : Cfg} {pkg : Pkg} {s : Signed} (hs : sign true E c pkg = .ok s) :
+    refsOk s.refs = true ∧ ((keptOf pkg).map (·.name)).Nodup := by
+  obtain ⟨m, hm, hrefs, -, -, -, -⟩ := sign_inv hs
+  exact ⟨mkRefs_refsOk _ _ _ hrefs, (mangle_nodup E pkg {} m hm).1⟩
+
+/-- where the signer before the repairs succeeded, the repaired one returns the same result, or refuses: a second kept
+    member of a name (`duplicate`), or — exactly when `refsOk` fails — a name the verifier would not find again -/
+theorem sign_true_of_false {E : Env} {c : Cfg} {pkg : Pkg} {s : Signed} (hs : sign false E c pkg = .ok s)
+    (hnd : ((keptOf pkg).map (·.name)).Nodup) :
+    (refsOk s.refs = true → sign true E c pkg = .ok s) ∧ (refsOk s.refs = false → sign true E c pkg = .err "unreferencable") := by
+  obtain ⟨m, hm, hrefs, hobj, hkept, hct, hparts⟩ := sign_inv hs
+  have hm' := mangle_true_of_false E pkg {} m hm hnd (by simp [keys])
+  obtain ⟨h1, h2⟩ := mkRefs_true_of_false _ _ _ hrefs
+  constructor
+  · intro hok
+    have hs' := hs
+    unfold sign at hs' ⊢
+    simp only [hm, hm', hrefs, h1 hok] at hs' ⊢
+    exact hs'
+  · intro hbad
+    unfold sign
+    simp only [hm', h2 hbad]
 
 end Relic.Vsix
